@@ -307,7 +307,7 @@ func runC14(c *eng.Ctx) {
 				for _, r := range eng.Returns(hbf) {
 					v := eng.RetVals(r)[0]
 					mask := eng.BinComm(token.AND, eng.Param("n"), eng.Bin(token.SHL, eng.IntConst(1), eng.Param("pos")))
-					if eng.Bin(token.GTR, mask, eng.IntConst(0))(v) || eng.Bin(token.NEQ, mask, eng.IntConst(0))(v) {
+					if eng.RelVal(mask, eng.IntConst(0), eng.GT)(v) || eng.RelVal(mask, eng.IntConst(0), eng.NE)(v) {
 						okBit = true
 					}
 				}
